@@ -171,6 +171,7 @@ type Replay struct {
 type funcUnderCheck struct {
 	p      *Program
 	key    string
+	isNew  bool // swept function without contract that is not in the committed baseline of the unchanged tree
 	res    *FuncResult
 	rac    *RACResult
 	noProof bool
@@ -349,11 +350,18 @@ func cmdCheck(args []string) {
 			stale = append(stale, dir+": "+s)
 		}
 		proved, bounded := p.carriers(*prop)
+		base := loadBaseline()
 		for _, k := range proved {
 			for _, lk := range p.staleLoops(k) {
 				stale = append(stale, fmt.Sprintf("%s: %s loop %q", dir, k, lk))
 			}
-			fucs = append(fucs, &funcUnderCheck{p: p, key: k})
+			f := &funcUnderCheck{p: p, key: k}
+			if fn := p.Funcs[k]; fn != nil && base != nil && p.Contracts[k] == nil {
+				if ic, _ := p.ifaceContractFor(fn); ic == nil && !base[dir][k] {
+					f.isNew = true
+				}
+			}
+			fucs = append(fucs, f)
 		}
 		for _, k := range bounded {
 			fucs = append(fucs, &funcUnderCheck{p: p, key: k, noProof: true})
@@ -445,6 +453,7 @@ func cmdCheck(args []string) {
 	}
 	// 3. verdicts
 	violations := 0
+	undecided := 0
 	knownSeen := map[string]bool{}
 	var vioLines []string
 	nObl, nDis := 0, 0
@@ -478,6 +487,15 @@ func cmdCheck(args []string) {
 					knownSeen[kf.ID] = true
 					fmt.Printf("KNOWN-FINDING: property=%s %s\n", *prop, kf.Text)
 				}
+				continue
+			}
+			if f.isNew {
+				// a function that does not exist on the unchanged tree (no contract, not in the committed
+				// baseline): there is no obligation that used to pass here, and no counterexample; a failed
+				// proof is "undecided", not a violation
+				fmt.Printf("UNDECIDED property=%s obligation=%s (function %s is not part of the unchanged tree's baseline; its safety could not be proved and no failing input is known)\n",
+					*prop, strings.ReplaceAll(o.Name, " ", "_"), f.key)
+				undecided++
 				continue
 			}
 			// find a concrete failing input among the bounded run's failures
@@ -607,6 +625,7 @@ func cmdCheck(args []string) {
 		level = lv
 	}
 	cov := map[string]interface{}{
+		"undecided_new_functions": undecided,
 		"obligations": nObl, "discharged": nDis, "by_backend": byBackend, "solver_time_s": round2(solverTime),
 		"functions_under_contract": funcs, "stale_blocks": stale, "bounded": boundedInfo, "samples": samples,
 		"checker_cmd": fmt.Sprintf("bin/jdvc check --property %s --tier %s", *prop, *tier),
@@ -797,4 +816,48 @@ func fnMatches(pat, fn string) bool {
 		}
 	}
 	return false
+}
+
+// loadBaseline reads /verif/baseline/functions.json: per package directory, the functions that
+// exist on the unchanged tree (written by "jdvc baseline", committed, never written by a check).
+func loadBaseline() map[string]map[string]bool {
+	data, err := os.ReadFile(filepath.Join(verifRoot, "baseline", "functions.json"))
+	if err != nil {
+		return nil
+	}
+	var raw map[string][]string
+	if json.Unmarshal(data, &raw) != nil {
+		return nil
+	}
+	out := map[string]map[string]bool{}
+	for d, ks := range raw {
+		out[d] = map[string]bool{}
+		for _, k := range ks {
+			out[d][k] = true
+		}
+	}
+	return out
+}
+
+// cmdBaseline writes the baseline of function keys per package directory.
+func cmdBaseline(args []string) {
+	out := map[string][]string{}
+	for _, dir := range pkgDirs {
+		p, err := loadProgram(dir, "verif")
+		if err != nil {
+			fmt.Fprintln(os.Stderr, err)
+			os.Exit(3)
+		}
+		var ks []string
+		for k, f := range p.Funcs {
+			if f.Blocks != nil && f.Parent() == nil {
+				ks = append(ks, k)
+			}
+		}
+		sort.Strings(ks)
+		out[dir] = ks
+	}
+	os.MkdirAll(filepath.Join(verifRoot, "baseline"), 0o755)
+	writeJSON(filepath.Join(verifRoot, "baseline", "functions.json"), out)
+	fmt.Println("baseline written")
 }
